@@ -126,6 +126,43 @@ func c13Cases() []buildCase {
 			rr(f)
 			addService(f, service("S", method("Get", ".t.v1.Req", ".t.v1.W")))
 		}),
+		one("two flatten fields in one message", func(f M) {
+			addMessage(f, message("Address", field("street", "string"), field("city", "string")))
+			addMessage(f, message("Contact", field("email", "string")))
+			addMessage(f, message("W", field("id", "string"),
+				withOpt(withOpt(msgField("billing", ".t.v1.Address"), "sebuf.http.flatten", true), "sebuf.http.flatten_prefix", "billing_"),
+				withOpt(withOpt(msgField("shipping", ".t.v1.Address"), "sebuf.http.flatten", true), "sebuf.http.flatten_prefix", "shipping_"),
+				withOpt(msgField("contact", ".t.v1.Contact"), "sebuf.http.flatten", true)))
+			rr(f)
+			addService(f, service("S", method("Get", ".t.v1.Req", ".t.v1.W")))
+		}),
+		one("two discriminated oneofs in one message", func(f M) {
+			addMessage(f, message("Text", field("body", "string")))
+			addMessage(f, message("Img", field("url", "string")))
+			m := message("Ev", field("id", "string"), msgField("text", ".t.v1.Text"), msgField("img", ".t.v1.Img"), msgField("alt_text", ".t.v1.Text"), msgField("alt_img", ".t.v1.Img"))
+			fs := m["field"].([]any)
+			fs[1].(M)["oneof_index"], fs[2].(M)["oneof_index"] = 0, 0
+			fs[3].(M)["oneof_index"], fs[4].(M)["oneof_index"] = 1, 1
+			m["oneof_decl"] = []any{M{"name": "content", "options": M{"[sebuf.http.oneof_config]": M{"discriminator": "type"}}}, M{"name": "fallback", "options": M{"[sebuf.http.oneof_config]": M{"discriminator": "fallback_type"}}}}
+			addMessage(f, m)
+			rr(f)
+			addService(f, service("S", method("Get", ".t.v1.Req", ".t.v1.Ev")))
+		}),
+		one("two messages with the same annotation kind", func(f M) {
+			addMessage(f, message("A", withOpt(field("n", "int64"), "sebuf.http.int64_encoding", "INT64_ENCODING_NUMBER"), withOpt(field("m", "uint64"), "sebuf.http.int64_encoding", "INT64_ENCODING_NUMBER")))
+			addMessage(f, message("B", withOpt(field("blob", "bytes"), "sebuf.http.bytes_encoding", "BYTES_ENCODING_HEX"), withOpt(field("raw", "bytes"), "sebuf.http.bytes_encoding", "BYTES_ENCODING_BASE64URL_RAW")))
+			addMessage(f, message("C", withOpt(msgField("at", ts), "sebuf.http.timestamp_format", "TIMESTAMP_FORMAT_DATE"), withOpt(msgField("until", ts), "sebuf.http.timestamp_format", "TIMESTAMP_FORMAT_UNIX_SECONDS")))
+			rr(f)
+			addService(f, service("S", method("GetA", ".t.v1.Req", ".t.v1.A"), method("GetB", ".t.v1.Req", ".t.v1.B"), method("GetC", ".t.v1.Req", ".t.v1.C")))
+		}),
+		one("empty_behavior variants on several fields", func(f M) {
+			addMessage(f, message("Meta", field("k", "string")))
+			addMessage(f, message("W", withOpt(msgField("a", ".t.v1.Meta"), "sebuf.http.empty_behavior", "EMPTY_BEHAVIOR_NULL"),
+				withOpt(msgField("b", ".t.v1.Meta"), "sebuf.http.empty_behavior", "EMPTY_BEHAVIOR_OMIT"),
+				withOpt(msgField("c", ".t.v1.Meta"), "sebuf.http.empty_behavior", "EMPTY_BEHAVIOR_PRESERVE")))
+			rr(f)
+			addService(f, service("S", method("Get", ".t.v1.Req", ".t.v1.W")))
+		}),
 		one("oneof discriminator with other annotations", func(f M) {
 			addMessage(f, message("Text", field("body", "string")))
 			addMessage(f, message("Img", field("url", "string"), withOpt(field("size", "int64"), "sebuf.http.int64_encoding", "INT64_ENCODING_NUMBER")))
